@@ -139,6 +139,54 @@ def run_seeded(prop: str, root: str, known):
     return out
 
 
+def run_benign(prop: str, root: str, known):
+    """The behaviour-preserving refactorings written by independent sub-agents (/verif/benign/<id>/):
+    every one that meta.json lists as silent for this property -- and that was authored for it or
+    once raised a false alarm of it -- is applied to scratch copies and must raise nothing."""
+    import glob
+    import json
+    import re
+    import subprocess
+
+    from .run import analyse
+
+    out = []
+    for meta_path in sorted(glob.glob(os.path.join(core.VERIF, "benign", "*", "meta.json"))):
+        d = os.path.dirname(meta_path)
+        meta = json.load(open(meta_path))
+        if prop not in meta.get("silent_for", []):
+            continue
+        if meta.get("authored_for") != prop and prop not in meta.get("false_alarms_at_first", {}):
+            continue
+        patch = os.path.join(d, "patch.diff")
+        files = re.findall(r"^\+\+\+ b/(.+)$", open(patch).read(), re.M)
+        tmp = tempfile.mkdtemp(prefix="sa_benign_")
+        name = f"benign {os.path.basename(d)}"
+        try:
+            for f in files:
+                dst = os.path.join(tmp, f)
+                os.makedirs(os.path.dirname(dst), exist_ok=True)
+                if os.path.exists(os.path.join(root, f)):
+                    shutil.copy(os.path.join(root, f), dst)
+            r = subprocess.run(["patch", "-p1", "-s", "--no-backup-if-mismatch", "-d", tmp, "-i", patch], capture_output=True, text=True)
+            if r.returncode != 0:
+                out.append(("stale", f"{name}: patch no longer applies"))
+                continue
+            try:
+                ctx, _p, _m = analyse(prop, "quick", root, overlay=tmp, known=known)
+            except core.AnalysisError as ex:
+                out.append(("FAIL", f"{name}: analysis error on a behaviour-preserving refactoring: {ex}"))
+                continue
+            bad = [o for o in ctx.obligations if o.status == "violated"]
+            if bad:
+                out.append(("FAIL", f"{name}: false alarm {bad[0].rule}: {bad[0].detail[:160]}"))
+            else:
+                out.append(("ok", f"{name}: silent"))
+        finally:
+            shutil.rmtree(tmp, ignore_errors=True)
+    return out
+
+
 def run_reformat_twin(prop: str, root: str, known) -> tuple[str, str]:
     """The whole-tree benign twin: every Python source under src/basilisp is replaced by
     ast.unparse(ast.parse(source)) (comments gone, layout and quoting changed, line numbers moved)
@@ -201,7 +249,7 @@ def run_alpha_twin(prop: str, root: str, known) -> tuple[str, str]:
     renamed (sa/alpha.py).  The verdict and the instance key of every obligation must stay what they
     are on the tree itself: no rule may depend on how a local is spelled (sa/canon.py gives locals
     their reference spelling back before the rules run; this twin shows that it does)."""
-    from . import alpha
+    from . import alpha, canon
     from .run import analyse
 
     tmp = tempfile.mkdtemp(prefix="sa_alpha_")
@@ -214,7 +262,7 @@ def run_alpha_twin(prop: str, root: str, known) -> tuple[str, str]:
                     continue
                 p = os.path.join(d, f)
                 with open(p, encoding="utf-8") as fh:
-                    out, k = alpha.rename_locals(fh.read())
+                    out, k = alpha.rename_locals(fh.read(), kw_names=canon.package_keyword_names(root))
                 n += k
                 dst = os.path.join(tmp, os.path.relpath(p, root))
                 os.makedirs(os.path.dirname(dst), exist_ok=True)
@@ -294,6 +342,17 @@ def run_for(prop: str, root: str) -> dict:
             continue
         res["mutants"] += 1
         res["fired"] += outcome == "ok"
+        if outcome == "FAIL":
+            failures.append(msg)
+    # ... and the independent benign refactorings of /verif/benign on which this property's check is
+    # recorded as silent (authored for this property, or once a false alarm of it): they stay silent
+    for outcome, msg in run_benign(prop, root, known):
+        res["cases"].append(f"{outcome}: {msg}")
+        if outcome == "stale":
+            res["stale"] += 1
+            continue
+        res["twins"] += 1
+        res["silent"] += outcome == "ok"
         if outcome == "FAIL":
             failures.append(msg)
     nm = sum(1 for c in cases if c.get("expect") is not None)
